@@ -17,6 +17,7 @@
 #include "rc.hpp"
 #include "tracked.hpp"
 
+#include <memory>
 #include <string>
 #include <type_traits>
 #include <utility>
@@ -112,6 +113,83 @@ struct TA {
 };
 static_assert(std::is_trivially_copy_assignable_v<TA<0>> && std::is_trivially_move_assignable_v<TA<0>>);
 static_assert(!std::is_trivially_copy_constructible_v<TA<0>> && !std::is_trivially_move_constructible_v<TA<0>> && !std::is_trivially_destructible_v<TA<0>>);
+
+// Configurable tracked shape (copy+move).  CopyNX / MoveNX: the copy / move constructor and assignment are declared
+// noexcept(false) (they never throw) so that library code selecting a path with is_nothrow_* takes the "may throw"
+// branch.  AddrOf: unary operator& is overloaded COM-pointer style and returns the address of the wrapped raw payload (a
+// different type), so that every place of the library that takes the address of an element must use etl::addressof.
+// The registry key is the address of the payload; it sits at a different offset for every Tag (see TA).
+struct Raw {
+    int x;
+};
+template <int Tag, bool CopyNX, bool MoveNX, bool AddrOf>
+struct TX {
+    int pad[Tag + 1]{};
+    Raw raw{0};
+
+    [[nodiscard]] auto key() const noexcept -> void const* { return std::addressof(raw); }
+    TX() noexcept { lt::on_construct(key()); }
+    TX(int x) noexcept : raw{x} { lt::on_construct(key()); } // NOLINT implicit on purpose
+    TX(TX const& o) noexcept(!CopyNX) : raw{o.raw}
+    {
+        lt::need_live(o.key(), "copy constructor reads a source that is not a live object");
+        lt::on_construct(key());
+    }
+    TX(TX&& o) noexcept(!MoveNX) : raw{o.raw}
+    {
+        lt::need_live(o.key(), "move constructor reads a source that is not a live object");
+        lt::on_construct(key());
+        o.raw.x = lt::moved_value;
+        lt::mark_moved(o.key());
+    }
+    auto operator=(TX const& o) noexcept(!CopyNX) -> TX&
+    {
+        lt::need_live(key(), "copy assignment ran on storage that holds no live object");
+        lt::need_live(o.key(), "copy assignment reads a source that is not a live object");
+        raw = o.raw;
+        lt::mark_live(key());
+        return *this;
+    }
+    auto operator=(TX&& o) noexcept(!MoveNX) -> TX&
+    {
+        lt::need_live(key(), "move assignment ran on storage that holds no live object");
+        lt::need_live(o.key(), "move assignment reads a source that is not a live object");
+        if (this != std::addressof(o)) {
+            raw     = o.raw;
+            o.raw.x = lt::moved_value;
+            lt::mark_live(key());
+            lt::mark_moved(o.key());
+        }
+        return *this;
+    }
+    ~TX() noexcept { lt::on_destroy(key()); }
+
+    auto operator&() noexcept -> Raw* requires(AddrOf) { return &raw; }
+    auto operator&() const noexcept -> Raw const* requires(AddrOf) { return &raw; }
+
+    [[nodiscard]] auto get() const noexcept -> int
+    {
+        lt::need_live(key(), "member function ran on storage that holds no live object");
+        return raw.x;
+    }
+    friend auto operator==(TX const& a, TX const& b) noexcept -> bool { return a.get() == b.get(); }
+    friend auto operator!=(TX const& a, TX const& b) noexcept -> bool { return a.get() != b.get(); }
+    friend auto operator<(TX const& a, TX const& b) noexcept -> bool { return a.get() < b.get(); }
+    friend auto operator>(TX const& a, TX const& b) noexcept -> bool { return a.get() > b.get(); }
+    friend auto operator<=(TX const& a, TX const& b) noexcept -> bool { return a.get() <= b.get(); }
+    friend auto operator>=(TX const& a, TX const& b) noexcept -> bool { return a.get() >= b.get(); }
+};
+template <int Tag>
+using NC = TX<Tag, true, false, false>; // copy constructor/assignment may throw (nothrow-movable: allowed in variant)
+template <int Tag>
+using NM = TX<Tag, false, true, false>; // move constructor/assignment may throw (not allowed in variant/optional/expected)
+template <int Tag>
+using AO = TX<Tag, false, false, true>; // overloaded unary operator&
+static_assert(!std::is_nothrow_copy_constructible_v<NC<0>> && std::is_nothrow_move_constructible_v<NC<0>>);
+static_assert(std::is_nothrow_copy_constructible_v<NM<0>> && !std::is_nothrow_move_constructible_v<NM<0>>);
+// does unary & on a T yield a T* ?
+template <typename T>
+inline constexpr bool plain_addr = std::is_same_v<decltype(&std::declval<T&>()), T*>;
 
 // bulk count biased to the boundaries of the remaining room
 inline auto pick(std::uint32_t raw, std::size_t room) -> std::size_t
